@@ -212,7 +212,14 @@ class CircuitCompositeOperation(ICircuitCompositeOperation):
     @relation_link.setter
     def relation_link(self, link: IRelationLink[ICircuitOperation]):
         """:sets: Description of relation to other circuit node."""
+        previous_link: IRelationLink[ICircuitOperation] = self.relation
         self.relation = link
+        # Apply relation-link head right away (as listing does), so that contained operations report times in the frame of
+        # the enclosing circuit whether or not the operations have been listed yet. Operations that carry the previous head
+        # follow the new one.
+        for node in self._circuit_graph.get_node_iterator():
+            if not node.operation.has_relation or self._is_relation_head(node.operation.relation_link, previous_link):
+                node.operation.relation_link = link.duplicate() if link.has_reference else RelationLink.no_relation()
 
     @property
     def start_time(self) -> float:
@@ -377,6 +384,16 @@ class CircuitCompositeOperation(ICircuitCompositeOperation):
     # endregion
 
     # region Class Methods
+    @staticmethod
+    def _is_relation_head(link: IRelationLink, head: IRelationLink) -> bool:
+        """:return: Whether link is a duplicate of (non-empty) head link, as handed to first operations of a composite."""
+        if not head.has_reference or type(link) is not type(head) or link.relation_type != head.relation_type:
+            return False
+        if isinstance(head, MultiRelationLink):
+            nodes, head_nodes = link._reference_nodes, head._reference_nodes
+            return len(nodes) == len(head_nodes) and all(a is b for a, b in zip(nodes, head_nodes))
+        return link.reference_node is head.reference_node
+
     def _get_relative_time_bounds(self) -> Optional[Tuple[float, float]]:
         """
         :return: (Optional) Earliest start- and latest end-time of all (nested) operations,
